@@ -24,3 +24,16 @@ meta("C06",
      trusted_base=["json value datatype: replies are values json.loads can return"],
      assumptions=["reply envelope: 'jsonrpc' member absent or the string '2.0'/'1.0'"],
      not_decided=[])
+
+meta("C14",
+     explanation="One postcondition per sentence of the statement on Payload.request/notify/response/error, Fault.*, "
+                 "dump, dumps, load, loads; exact member sets are equalities between key-set arrays; the generated-id "
+                 "rule uses the ghost counter of the trusted uuid4 contract (distinct ids by injectivity of uuid_str).",
+     trusted_base=["uuid.uuid4: str() non-empty, distinct per call (ghost uuid_ctr)",
+                   "json.dumps: total on JSON-representable values else TypeError; json.loads: value or ValueError",
+                   "jc_dump / jc_load: specification functions for the class translator, constrained by the contracts "
+                   "of jsonclass.dump / jsonclass.load"],
+     assumptions=["version arguments and Config.version range over {1.0, 2.0, 1, 2, '1.0', '2.0'}",
+                  "bool and empty-container ids are neither 'supplied' nor 'absent' in the statement: unconstrained"],
+     not_decided=["loads(dumps(x)) == N(x) is the composition of the dumps/loads contracts with the trusted JSON "
+                  "round-trip axiom; it is stated in C01's lemma, not re-proved here"])
